@@ -600,6 +600,25 @@ pub fn stack_probe(n: usize) -> Result<(), String> {
             let nested: Vec<[[String; 0]; 3]> = vec![[[], [], []]; n / 4];
             let j = nested.heap_size();
             let _ = mixed;
+            // zero-sized elements make astronomically long slices legal (no memory is involved): every helper must
+            // still return the element-wise sum — 0 — without overflowing a count of elements on the way
+            let huge = |n: usize| -> Box<[()]> { let mut u: Vec<()> = Vec::new(); unsafe { u.set_len(n) }; u.into_boxed_slice() };
+            let vv: Vec<Box<[()]>> = vec![huge(usize::MAX / 2 + 7), huge(usize::MAX / 2 + 9), huge(usize::MAX)];
+            let own = vv.capacity() * std::mem::size_of::<Box<[()]>>();
+            let k = [
+                vv.heap_size() - own,
+                <[()]>::value_size_sum_iter(vv.iter().map(|b| &**b)),
+                <[()]>::value_size_sum_exact_size_iter(vv.iter().map(|b| &**b)),
+                <[()]>::heap_size_sum_iter(|| vv.iter().map(|b| &**b)),
+                <[()]>::heap_size_sum_exact_size_iter(|| vv.iter().map(|b| &**b)),
+                <Box<[()]>>::heap_size_sum_iter(|| vv.iter()),
+                <Box<[()]>>::heap_size_sum_exact_size_iter(|| vv.iter()),
+                vv.iter().map(|b| b.mem_size() - std::mem::size_of::<Box<[()]>>()).sum::<usize>(),
+            ];
+            assert!(k.iter().all(|x| *x == 0), "size estimation of huge zero-sized-element slices: {:?}", k);
+            let za: Vec<[(); 1 << 40]> = { let mut u = Vec::new(); unsafe { u.set_len(1 << 30) }; u };
+            assert_eq!(0, za.heap_size());
+            assert_eq!(0, <[(); 1 << 40]>::heap_size_sum_iter(|| za.iter().take(3)));
             a + b + c + d + e + f + g + h + i + j
         })
         .map_err(|e| e.to_string())?;
